@@ -51,7 +51,7 @@ class Ctx:
         self.tier = tier
         self.seed = seed
         self.rng = random.Random(seed * 1000003 + int(hashlib.sha1(pid.encode()).hexdigest()[:8], 16))
-        self.work = os.path.join(WORK, pid)
+        self.work = os.path.join(WORK, f'{pid}-{os.getpid()}')    # per process: concurrent runs must not collide
         shutil.rmtree(self.work, ignore_errors=True)
         os.makedirs(self.work, exist_ok=True)
         self.t0 = time.time()
